@@ -67,6 +67,7 @@ def runPlan : Hs → St → Fault → Option (St × Bool)
     | some none => runPlan e s f
     | some (some (s', v)) => runPlan (k v) s' f
     | none => none
+  | .recv _ _ _, _, _ => none   -- no stream receive inside the handshake
 
 end LinVerif.Replication
 
@@ -156,5 +157,100 @@ theorem handshake_eq_plan (cfg : Cfg) (hfx : cfg.fixed = true) (s : St) (f : Fau
     split <;> rfl
   · simp [h1, h2, h3, h4, h6]
     split <;> rfl
+
+/-! ### `remoteReplicator.Replica(idx, msg)` -/
+
+/-- what the follower's side does with a delivered request: `ReplicaHandler.Replica` + `partition.ReplicaLog`
+(closed partition: `(0, ErrPartitionClosed)`), as (new follower log, `resp.AckIndex`, `resp.Err` as 0 = "") -/
+def handlerAnswer (s : St) (idx : Int) (m : Msg) (f : Fault) : Log × Int × Int :=
+  let r := if s.closed then (s.F, (0 : Int)) else replicaLog s.F idx m (decide (f = .put))
+  let respErr := s.closed || decide (f = .put ∧ idx = s.F.app + 1)
+  (r.1, r.2, if respErr then 1 else 0)
+
+/-- interpretation of the regenerated tree of `Replica`: `pend` = the answer in flight
+(`resp.ReplicaIndex`, `resp.AckIndex`, `resp.Err`). `Send` fails when there is no usable stream or the
+request is lost; otherwise the request is delivered and handled; `Recv` fails when the answer is lost. -/
+def runSend (m : Msg) : Hs → St → Option (Int × Int × Int) → Fault → Option St
+  | .ret st _, s, _, _ =>
+    if st = "unchanged" then some s
+    else match planChan st with
+      | some c => some { s with chan := c }
+      | none => none
+  | .call n a k, s, p, f => if n = "r.SetAckIndex" then runSend m k (ackGroup s a) p f else none
+  | .read _ _, _, _, _ => none
+  | .rpc n a e k, s, p, f =>
+    if n = "r.replicaStream.Send" then
+      if s.stream ≠ .up ∨ f = .send then runSend m e s p f
+      else runSend m (k 0) { s with F := (handlerAnswer s a m f).1 }
+        (some (a, (handlerAnswer s a m f).2.1, (handlerAnswer s a m f).2.2)) f
+    else none
+  | .recv n e k, s, p, f =>
+    if n = "r.replicaStream.Recv" then
+      if f = .recv then runSend m e s p f
+      else match p with
+        | some (ri, ai, er) => runSend m (k ri ai er) s p f
+        | none => none
+    else none
+
+theorem runSend_ite (m : Msg) (c : Prop) [Decidable c] (a b : Hs) (s : St) (p : Option (Int × Int × Int)) (f : Fault) :
+    runSend m (if c then a else b) s p f = if c then runSend m a s p f else runSend m b s p f := by
+  split <;> rfl
+
+/-- the request has been delivered and handled by the follower -/
+def deliverSt (s : St) (a : Int) (m : Msg) (f : Fault) : St := { s with F := (handlerAnswer s a m f).1 }
+
+theorem rs_send (m : Msg) (a : Int) (e : Hs) (k : Int → Hs) (s : St) (p : Option (Int × Int × Int)) (f : Fault) :
+    runSend m (.rpc "r.replicaStream.Send" a e k) s p f =
+      if s.stream ≠ .up ∨ f = .send then runSend m e s p f
+      else runSend m (k 0) (deliverSt s a m f) (some (a, (handlerAnswer s a m f).2.1, (handlerAnswer s a m f).2.2)) f := rfl
+theorem rs_recv (m : Msg) (e : Hs) (k : Int → Int → Int → Hs) (s : St) (ri ai er : Int) (f : Fault) :
+    runSend m (.recv "r.replicaStream.Recv" e k) s (some (ri, ai, er)) f =
+      if f = .recv then runSend m e s (some (ri, ai, er)) f else runSend m (k ri ai er) s (some (ri, ai, er)) f := rfl
+theorem rs_ack (m : Msg) (a : Int) (k : Hs) (s : St) (p : Option (Int × Int × Int)) (f : Fault) :
+    runSend m (.call "r.SetAckIndex" a k) s p f = runSend m k (ackGroup s a) p f := rfl
+theorem rs_unchanged (m : Msg) (b : Bool) (s : St) (p : Option (Int × Int × Int)) (f : Fault) :
+    runSend m (.ret "unchanged" b) s p f = some s := rfl
+theorem rs_failure (m : Msg) (b : Bool) (s : St) (p : Option (Int × Int × Int)) (f : Fault) :
+    runSend m (.ret "ReplicatorFailureState" b) s p f = some (setChan s .failure) := rfl
+
+/-- `replicaSend`'s state component written with the named sub-steps -/
+theorem replicaSend_unfold (cfg : Cfg) (hm : cfg.mfail = true) (s : St) (idx : Int) (m : Msg) (f : Fault) :
+    (replicaSend cfg s idx m f).1 =
+      if s.stream ≠ .up ∨ f = .send then setChan s .failure
+      else if f = .recv then setChan (deliverSt s idx m f) .failure
+      else if (handlerAnswer s idx m f).2.2 = 0 ∧ (handlerAnswer s idx m f).2.1 = idx then
+        ackGroup (deliverSt s idx m f) (handlerAnswer s idx m f).2.1
+      else setChan (deliverSt s idx m f) .failure := by
+  unfold replicaSend
+  by_cases h1 : s.stream ≠ .up ∨ f = .send
+  · simp [h1, setChan]
+  have hs : s.stream = .up := Classical.byContradiction fun h => h1 (Or.inl h)
+  have hf : f ≠ .send := fun h => h1 (Or.inr h)
+  by_cases h2 : f = .recv
+  · subst h2
+    simp [hs, setChan, deliverSt, handlerAnswer]
+  by_cases hc : s.closed = true
+  · simp [hs, hf, h2, hm, handlerAnswer, deliverSt, setChan, hc]
+  · by_cases hp : f = .put ∧ idx = s.F.app + 1
+    · simp [hs, hm, handlerAnswer, deliverSt, setChan, hc, hp]
+    · simp [hs, hf, h2, hm, handlerAnswer, deliverSt, setChan, hc, hp]
+      split <;> rfl
+
+/-- The model's `replicaSend` (repaired else-branch, `resp.Err` checked: the tree as it is) IS the
+interpretation of the decision tree regenerated from `Replica`'s source: every state, index, message, fault. -/
+theorem replicaSend_eq_plan (cfg : Cfg) (hm : cfg.mfail = true) (s : St) (idx : Int) (m : Msg) (f : Fault) :
+    runSend m (LinVerif.Generated.C08.replicaPlan idx) s none f = some (replicaSend cfg s idx m f).1 := by
+  unfold LinVerif.Generated.C08.replicaPlan
+  rw [replicaSend_unfold cfg hm]
+  simp only [rs_send, rs_recv, rs_ack, rs_unchanged, rs_failure, runSend_ite]
+  by_cases h1 : s.stream ≠ .up ∨ f = .send
+  · simp only [h1, if_true]
+  have hs : s.stream = .up := Classical.byContradiction fun h => h1 (Or.inl h)
+  have hf : f ≠ .send := fun h => h1 (Or.inr h)
+  by_cases h2 : f = .recv
+  · subst h2
+    simp [hs]
+  simp only [h1, h2, if_false]
+  split <;> rfl
 
 end LinVerif.Replication
